@@ -101,6 +101,7 @@ func runMoney(w *mc.Worker, id string) {
 	}
 	runEdgeSeqSpace(w, fmt.Sprintf("edge-L%d", el), 1, el, func(c *seqCase, bal env.Bal) {
 		judgeSeqCase(w, c, nil, bal, owns, nontriv, id == "C02")
+		judgeSeqCaseMode(w, c, nil, bal, owns, nontriv, false, env.Sparse)
 	})
 	peers := []string{"x", "a"}
 	if id == "C02" {
